@@ -125,7 +125,7 @@ structure WkInv (c : Ctl.State (Load.State τ) τ) (k : Nat) (w : Wk τ) : Prop 
   have1 : w.w.pc = .haveItem → ∃ j, w.w.next = some (.test j)
   init0 : w.w.pc = .init → w.w.next = none
   early : w.phase = .boot ∨ w.phase = .collect → w.w.pc = .init ∧ w.w.torun = [] ∧ w.cbSet = false
-  boot0 : w.alive = true → w.phase = .boot → w.outbox.filterMap (evOf k) = [] ∧ w.posted = []
+  boot0 : w.alive = true → w.phase = .boot → w.outbox = [] ∧ w.posted = []
   latePc : w.phase = .finish ∨ w.phase = .done → True
   inboxK : ∀ c ∈ w.inbox, loadCmd c = true
   ownP : ∀ ev ∈ w.posted, Own k ev = true
@@ -160,7 +160,7 @@ instance instWkInvDec (c : Ctl.State (Load.State τ) τ) (k : Nat) (w : Wk τ) :
      (w.w.pc = .haveItem → nextIsTest w = true) ∧
      (w.w.pc = .init → w.w.next = none) ∧
      (w.phase = .boot ∨ w.phase = .collect → w.w.pc = .init ∧ w.w.torun = [] ∧ w.cbSet = false) ∧
-     (w.alive = true → w.phase = .boot → (w.outbox.filterMap (evOf k)).isEmpty = true ∧ w.posted.isEmpty = true) ∧
+     (w.alive = true → w.phase = .boot → w.outbox.isEmpty = true ∧ w.posted.isEmpty = true) ∧
      (∀ c ∈ w.inbox, loadCmd c = true) ∧
      (∀ ev ∈ w.posted, Own k ev = true) ∧
      (∀ ev ∈ w.outbox.filterMap (evOf k), Own k ev = true) ∧
